@@ -2880,7 +2880,10 @@ func (d *decoderJsonBytes) arrayEnd() {
 func (d *decoderJsonBytes) interfaceExtConvertAndDecode(v interface{}, ext InterfaceExt) {
 
 	var vv interface{}
+
+	d.depthIncr()
 	d.decode(&vv)
+	d.depthDecr()
 	ext.UpdateExt(v, vv)
 
 }
@@ -7056,7 +7059,10 @@ func (d *decoderJsonIO) arrayEnd() {
 func (d *decoderJsonIO) interfaceExtConvertAndDecode(v interface{}, ext InterfaceExt) {
 
 	var vv interface{}
+
+	d.depthIncr()
 	d.decode(&vv)
+	d.depthDecr()
 	ext.UpdateExt(v, vv)
 
 }
